@@ -1015,7 +1015,13 @@ class ManifestRecursiveLoader:
                             raise ManifestIncompatibleEntry(
                                 out[fullpath][1], e, diff)
                         # otherwise, make sure we have all checksums
-                        out[fullpath][1].checksums.update(e.checksums)
+                        kept_mpath, kept = out[fullpath]
+                        if any(kept.checksums.get(k) != v
+                               for k, v in e.checksums.items()):
+                            kept.checksums.update(e.checksums)
+                            # NB: the preserved entry was modified, its
+                            # Manifest needs to be written too
+                            self.updated_manifests.add(kept_mpath)
                         # and drop the duplicate
                         entries_to_remove.append(e)
                     else:
